@@ -45,6 +45,10 @@ func c04Open(key, pkt []byte) string {
 	if err != nil {
 		return envOpenErr(err)
 	}
+	if e == nil {
+		// the result contract: no error means "here is a message"
+		return c04NoMsg + "(DeserializeEncrypted)"
+	}
 	return envShowMsg(envOfEncrypted(e))
 }
 
@@ -80,7 +84,8 @@ func c04Exec1(op []string) string {
 		if len(op) != 4 {
 			return "bad-op"
 		}
-		return envRoute(envTok(op[1]), envTok(op[2]))
+		pkt := envTok(op[2])
+		return c04Deliver([]c04Frame{{envTok(op[1]), len(pkt), pkt}})[0] // (envRoute with the result contract checked)
 	case "c04.udeser":
 		if len(op) != 3 {
 			return "bad-op"
@@ -97,6 +102,8 @@ func c04Exec1(op []string) string {
 			return "bad-op"
 		}
 		return c04Client(op[1], op[2:])
+	case "c04.big", "c04.cut":
+		return c04Big(op)
 	}
 	return "bad-op"
 }
@@ -119,6 +126,10 @@ func c04Routed(msg messages.Common, err error) (res string, alive bool) {
 		if strings.HasPrefix(s, "wrong bits of message_id") {
 			return "err:parity2", true
 		}
+		if eb, ok := err.(transport.ErrBroken); ok {
+			// ReadMsg's "the connection can't be read any further" (a frame cut short, a reset, a timeout)
+			return "err:transport(broken:" + strings.ReplaceAll(eb.Err.Error(), " ", "_") + ")", false
+		}
 		if envStreamErr(err) {
 			return "err:transport(" + strings.ReplaceAll(s, " ", "_") + ")", false
 		}
@@ -127,10 +138,19 @@ func c04Routed(msg messages.Common, err error) (res string, alive bool) {
 		}
 		return envOpenErr(err), true
 	}
+	if msg == nil {
+		return c04NoMsg + "(ReadMsg)", true
+	}
 	switch m := msg.(type) {
 	case *messages.Encrypted:
+		if m == nil {
+			return c04NoMsg + "(ReadMsg:*Encrypted)", true
+		}
 		return "enc " + envShowMsg(envOfEncrypted(m)), true
 	case *messages.Unencrypted:
+		if m == nil {
+			return c04NoMsg + "(ReadMsg:*Unencrypted)", true
+		}
 		return fmt.Sprintf("unenc mid=%d body=%s", uint64(m.MsgID), showBytes(m.Msg)), true
 	}
 	return "err:unknown-type", true
@@ -199,6 +219,9 @@ func c04Unenc(data []byte) string {
 	if err != nil {
 		return envUnencErr(err)
 	}
+	if m == nil {
+		return c04NoMsg + "(DeserializeUnencrypted)"
+	}
 	return fmt.Sprintf("ok mid=%d body=%s", uint64(m.MsgID), showBytes(m.Msg))
 }
 
@@ -219,7 +242,12 @@ func c04Judge(op []string, out string) string {
 	if strings.Contains(out, "panic:") {
 		return "the receive path panics: " + clip(out)
 	}
+	if strings.Contains(out, c04NoMsg) {
+		return "no error and no message: a call on the receive path returned err == nil together with a nil message (the caller is told the packet was fine and dereferences it): " + clip(out)
+	}
 	switch op[0] {
+	case "c04.big", "c04.cut":
+		return c04JudgeBig(op, out)
 	case "c04.client":
 		return c04JudgeClient(op, out)
 	case "c04.session":
@@ -570,6 +598,9 @@ func c04Gen(g *G) {
 	// under the key the session had BEFORE must be refused, the one under the key it has NOW accepted
 	c04GenSessions(g)
 
+	// (10) the size axis: packets of 2^10 .. 2^24+2^20 bytes, described instead of spelled out (c04big.go)
+	c04GenBig(g)
+
 	// (9) the same through the real client working under its auth key: a frame with zero key id yields no message
 	c04GenClients(g)
 
@@ -697,6 +728,11 @@ func init() {
 				kinds[k] = v
 			}
 			c04G.Extra["result_kinds"] = kinds
+			cuts := map[string]interface{}{}
+			for k, v := range c04Cuts {
+				cuts[k] = v
+			}
+			c04G.Extra["cut_frames_by_ReadMsg_return"] = cuts
 			c04G.Extra["ciphertext_flips_delivered_as_the_same_message"] = c04SameMsg
 		}})
 }
